@@ -32,7 +32,7 @@ FUNCS = {
 }
 
 MODULE_GLOBALS = {"UNSAFE_FUNCTION_ATTRIBUTES", "UNSAFE_METHOD_ATTRIBUTES", "UNSAFE_GENERATOR_ATTRIBUTES",
-                  "UNSAFE_COROUTINE_ATTRIBUTES", "UNSAFE_ASYNC_GENERATOR_ATTRIBUTES", "_mutable_spec", "str", "type"}
+                  "UNSAFE_COROUTINE_ATTRIBUTES", "UNSAFE_ASYNC_GENERATOR_ATTRIBUTES", "_mutable_spec", "str", "type", "partial"}
 MODULE_FUNCS = {"is_internal_attribute", "modifies_known_mutable", "_plain_str"}
 RECEIVERS = {"self", "__self", "__context"}
 
@@ -52,9 +52,10 @@ class Fn:
         self.node = node
         self.qual = qual
         a = node.args
-        if a.posonlyargs or a.kwonlyargs or a.defaults or a.kw_defaults:
+        if a.kwonlyargs or a.defaults or a.kw_defaults:
             raise Untranslatable(f"{qual}: parameter list with defaults / keyword-only parameters")
-        self.params = [p.arg for p in a.args]
+        # positional-only parameters (def call(__self, __context, __obj, /, *args, **kwargs)) bind like the others
+        self.params = [p.arg for p in a.posonlyargs + a.args]
         self.vararg = a.vararg.arg if a.vararg else None
         self.kwarg = a.kwarg.arg if a.kwarg else None
         self.locals = set(self.params) | {x for x in (self.vararg, self.kwarg) if x}
@@ -79,7 +80,7 @@ class Fn:
         if isinstance(n, ast.Attribute) and isinstance(n.value, ast.Name) and n.value.id == "types" and "types" not in self.locals:
             return f"(EGlobal {q('types.' + n.attr)})"
         if isinstance(n, ast.Attribute) and isinstance(n.ctx, ast.Load) and isinstance(n.value, ast.Name) \
-                and n.value.id in self.locals and n.value.id not in RECEIVERS and n.attr in ("__self__", "__name__"):
+                and n.value.id in self.locals and n.value.id not in RECEIVERS and n.attr in ("__self__", "__name__", "__objclass__", "func"):
             return f"(EGetattr (EVar {q(n.value.id)}) (EStr {q(n.attr)}))"
         if isinstance(n, ast.Constant):
             if n.value is None:
@@ -137,6 +138,8 @@ class Fn:
                 return f"(EGetattrDefault {self.expr(n.args[0])} {q(n.args[1].value)} {self.expr(n.args[2])})"
             if f.id == "str" and len(n.args) == 1:
                 return f"(EStrOf {self.expr(n.args[0])})"
+            if f.id == "issubclass" and len(n.args) == 2:
+                return f"(ECall {q('issubclass')} [{self.expr(n.args[0])}; {self.expr(n.args[1])}] None)"
             if f.id == "type" and len(n.args) == 1:
                 return f"(ECall {q('type')} [{self.expr(n.args[0])}] None)"
             if f.id in MODULE_FUNCS:
@@ -350,12 +353,26 @@ Definition src_safe (tb : tables) (k : okind) (attr : string) : list noev * outc
 (* ================================================================== modifies_known_mutable
    objects: the four exact builtin types; _mutable_spec: the table, each row's type being its
    isinstance predicate *)
-Definition row_value (r : row) : pv btype := PTuple [PTy (fun T => mem_b T (row_inst r)); PSet (row_attrs r)].
-Definition mkm_globals (spec : list row) (n : string) : pv btype :=
-  if String.eqb n "_mutable_spec" then PTuple (map row_value spec) else PNone.
-Definition src_mkm (spec : list row) (T : btype) (attr : string) : list noev * outcome (pv btype) :=
-  run btype noev (mkm_globals spec) yes no_getattr no_getitem no_call exn_isa body_mkm
-      [(%(mkm_obj)s, PObj T); (%(mkm_attr)s, PStr attr)].
+(* an object of the lookup: an instance of the exact type, or the type itself (whose attribute is the unbound method) *)
+Inductive mobj := MInst (T : btype) | MClass (T : btype).
+Definition mtype (o : mobj) : btype := match o with MInst T | MClass T => T end.
+Definition row_value (r : row) : pv mobj :=
+  PTuple [PTy (fun o => match o with MInst T => mem_b T (row_inst r) | MClass _ => false end); PSet (row_attrs r)].
+Definition mkm_globals (spec : list row) (n : string) : pv mobj :=
+  if String.eqb n "_mutable_spec" then PTuple (map row_value spec)
+  else if String.eqb n "type" then PTy (fun o => match o with MClass _ => true | MInst _ => false end)
+  else PNone.
+(* issubclass(C, rowtype) for the four exact types is isinstance(C(), rowtype): the same dumped facts *)
+Definition mkm_call (f : string) (args : list (pv mobj)) : list noev * outcome (pv mobj) :=
+  if String.eqb f "issubclass" then
+    match args with
+    | [PObj (MClass T); PTy p] => ([], Norm (PBool (p (MInst T))))
+    | _ => ([], Exc "TypeError")
+    end
+  else ([], Exc "NameError").
+Definition src_mkm (spec : list row) (o : mobj) (attr : string) : list noev * outcome (pv mobj) :=
+  run mobj noev (mkm_globals spec) yes no_getattr no_getitem mkm_call exn_isa body_mkm
+      [(%(mkm_obj)s, PObj o); (%(mkm_attr)s, PStr attr)].
 
 %(mkm_proof)s
 
@@ -404,7 +421,7 @@ Qed.
 Definition imm_call (tb : tables) (spec : list row) (f : string) (args : list (pv btype)) : list noev * outcome (pv btype) :=
   match args with
   | [PObj T; PStr a; _] => if String.eqb f "super().is_safe_attribute" then lift_bool (src_safe tb KOther a) else ([], Exc "NameError")
-  | [PObj T; PStr a] => if String.eqb f "modifies_known_mutable" then src_mkm spec T a else ([], Exc "NameError")
+  | [PObj T; PStr a] => if String.eqb f "modifies_known_mutable" then lift_bool (src_mkm spec (MInst T) a) else ([], Exc "NameError")
   | _ => ([], Exc "TypeError")
   end.
 Definition src_imm (tb : tables) (spec : list row) (T : btype) (attr : string) : list noev * outcome (pv btype) :=
@@ -417,7 +434,7 @@ Proof.
   intros tb spec T attr. unfold src_imm, body_imm, immutable_is_safe_attribute, run.
   cbn -[src_safe src_mkm]. rewrite is_safe_attribute_source_eq_model_other.
   destruct (is_safe_attribute tb KOther attr); cbn -[src_mkm]; [|reflexivity].
-  rewrite modifies_known_mutable_source_eq_model.
+  rewrite modifies_known_mutable_source_eq_model. cbn.
   destruct (modifies_known_mutable spec T attr); reflexivity.
 Qed.
 
@@ -638,24 +655,36 @@ Proof.
 Qed.
 
 (* ================================================================== ImmutableSandboxedEnvironment.is_safe_callable
-   objects: a bound method T().m of one of the four exact builtin types (a builtin method: no markers), the
-   container it is bound to, or anything that is not a bound method *)
-Inductive icobj := ICMethod (T : btype) (m : string) | ICSelf (T : btype) | ICOther.
+   objects: a stored reference in one of its forms (Model/SbxMutable.stored_ref), the container or type it is bound to,
+   anything else.  Builtin methods carry no markers: super().is_safe_callable answers True.  The recursive call on the
+   callable a partial wraps is answered by the model on that callable (structural recursion over [stored_ref]). *)
+Inductive icobj := ICRef (r : stored_ref) | ICSelf (T : btype) | ICClass (T : btype).
 Definition ic_globals (n : string) : pv icobj :=
-  if String.eqb n "types.BuiltinMethodType" then PTy (fun o => match o with ICMethod _ _ => true | _ => false end)
+  if String.eqb n "types.BuiltinMethodType" then PTy (fun o => match o with ICRef (RBound _ _) => true | _ => false end)
   else if String.eqb n "types.MethodType" then PTy (fun _ => false)
+  else if String.eqb n "types.MethodDescriptorType" then PTy (fun o => match o with ICRef (RUnbound _ _) => true | _ => false end)
+  else if String.eqb n "partial" then PTy (fun o => match o with ICRef (RPartial _) => true | _ => false end)
   else PNone.
 Definition ic_getattr (o : icobj) (a : string) : outcome (pv icobj) :=
   match o with
-  | ICMethod T m => if String.eqb a "__self__" then Norm (PObj (ICSelf T))
-                    else if String.eqb a "__name__" then Norm (PStr m) else Exc "AttributeError"
+  | ICRef (RBound T m) => if String.eqb a "__self__" then Norm (PObj (ICSelf T))
+                          else if String.eqb a "__name__" then Norm (PStr m) else Exc "AttributeError"
+  | ICRef (RUnbound T m) => if String.eqb a "__objclass__" then Norm (PObj (ICClass T))
+                            else if String.eqb a "__name__" then Norm (PStr m) else Exc "AttributeError"
+  | ICRef (RPartial r) => if String.eqb a "func" then Norm (PObj (ICRef r)) else Exc "AttributeError"
   | _ => Exc "AttributeError"
   end.
 Definition ic_call (spec : list row) (f : string) (args : list (pv icobj)) : list noev * outcome (pv icobj) :=
   if String.eqb f "super().is_safe_callable" then ([], Norm (PBool true))
+  else if String.eqb f (%(ic_self)s ++ ".is_safe_callable") then
+    match args with
+    | [PObj (ICRef r)] => ([], Norm (PBool (immutable_safe_ref spec r)))
+    | _ => ([], Exc "TypeError")
+    end
   else if String.eqb f "modifies_known_mutable" then
     match args with
-    | [PObj (ICSelf T); PStr m] => lift_bool (src_mkm spec T m)
+    | [PObj (ICSelf T); PStr m] => lift_bool (src_mkm spec (MInst T) m)
+    | [PObj (ICClass T); PStr m] => lift_bool (src_mkm spec (MClass T) m)
     | _ => ([], Exc "TypeError")
     end
   else ([], Exc "NameError").
@@ -663,14 +692,13 @@ Definition src_immcall (spec : list row) (o : icobj) : list noev * outcome (pv i
   run icobj noev ic_globals yes ic_getattr no_getitem (ic_call spec) exn_isa body_immcall
       [(%(ic_self)s, PNone); (%(ic_obj)s, PObj o)].
 
-Theorem immutable_is_safe_callable_source_eq_model : forall spec T m,
-  src_immcall spec (ICMethod T m) = ([], Norm (PBool (immutable_is_safe_callable spec T m)))
-  /\ src_immcall spec ICOther = ([], Norm (PBool true)).
+Theorem immutable_is_safe_callable_source_eq_model : forall spec r,
+  src_immcall spec (ICRef r) = ([], Norm (PBool (immutable_safe_ref spec r))).
 Proof.
-  intros spec T m. split; [|reflexivity].
-  unfold src_immcall, body_immcall, immutable_is_safe_callable, run. cbn -[src_mkm].
-  rewrite modifies_known_mutable_source_eq_model. cbn.
-  destruct (modifies_known_mutable spec T m); reflexivity.
+  intros spec r. unfold src_immcall, body_immcall, run.
+  destruct r as [T m|T m|r|]; cbn -[src_mkm]; try reflexivity;
+    rewrite modifies_known_mutable_source_eq_model; cbn;
+    destruct (modifies_known_mutable spec T m); reflexivity.
 Qed.
 
 Print Assumptions modifies_known_mutable_source_eq_model.
@@ -687,53 +715,56 @@ Lemma body_mkm_shape : body_mkm = SFor [%(mkm_typespec)s; %(mkm_unsafe)s] %(mkm_
 Proof. reflexivity. Qed.
 
 (* one iteration of the loop body, as the interpreter runs it *)
-Definition mkm_step (spec : list row) (x : pv btype) (en1 : env btype) : fres btype noev :=
-  execs btype noev (mkm_globals spec) yes no_getattr no_getitem no_call exn_isa mkm_loop
-        (bind_target btype [%(mkm_typespec)s; %(mkm_unsafe)s] x en1).
+Definition mkm_step (spec : list row) (x : pv mobj) (en1 : env mobj) : fres mobj noev :=
+  execs mobj noev (mkm_globals spec) yes no_getattr no_getitem mkm_call exn_isa mkm_loop
+        (bind_target mobj [%(mkm_typespec)s; %(mkm_unsafe)s] x en1).
 
-Lemma mkm_step_row : forall spec r en T attr,
-  env_get btype %(mkm_obj)s en = PObj T -> env_get btype %(mkm_attr)s en = PStr attr ->
+Definition row_ty (r : row) : pv mobj :=
+  PTy (fun o => match o with MInst T => mem_b T (row_inst r) | MClass _ => false end).
+
+Lemma mkm_step_row : forall spec r en o attr,
+  env_get mobj %(mkm_obj)s en = PObj o -> env_get mobj %(mkm_attr)s en = PStr attr ->
   mkm_step spec (row_value r) en =
-  if mem_b T (row_inst r) then ([], Ret (PBool (mem_s attr (row_attrs r))))
-  else ([], Fall ((%(mkm_unsafe)s, PSet (row_attrs r)) :: (%(mkm_typespec)s, PTy (fun T0 => mem_b T0 (row_inst r))) :: en)).
+  if mem_b (mtype o) (row_inst r) then ([], Ret (PBool (mem_s attr (row_attrs r))))
+  else ([], Fall ((%(mkm_unsafe)s, PSet (row_attrs r)) :: (%(mkm_typespec)s, row_ty r) :: en)).
 Proof.
-  intros spec r en T attr Ho Ha. unfold mkm_step, mkm_loop, row_value.
-  cbn. rewrite Ho. cbn. destruct (mem_b T (row_inst r)); cbn; [rewrite Ha; reflexivity|reflexivity].
+  intros spec r en o attr Ho Ha. unfold mkm_step, mkm_loop, row_value, row_ty.
+  cbn -[mkm_globals]. rewrite Ho. destruct o as [T|T]; cbn; destruct (mem_b T (row_inst r)); cbn; try rewrite Ha; reflexivity.
 Qed.
 
 (* the whole loop, by induction over the table: first matching row decides *)
-Lemma mkm_iterate : forall spec T attr spec0 en,
-  env_get btype %(mkm_obj)s en = PObj T -> env_get btype %(mkm_attr)s en = PStr attr ->
-  iterate btype noev (mkm_step spec) (map row_value spec0) en = ([], Ret (PBool (modifies_known_mutable spec0 T attr)))
-  \/ (exists en', iterate btype noev (mkm_step spec) (map row_value spec0) en = ([], Fall en')
-                   /\ modifies_known_mutable spec0 T attr = false).
+Lemma mkm_iterate : forall spec o attr spec0 en,
+  env_get mobj %(mkm_obj)s en = PObj o -> env_get mobj %(mkm_attr)s en = PStr attr ->
+  iterate mobj noev (mkm_step spec) (map row_value spec0) en = ([], Ret (PBool (modifies_known_mutable spec0 (mtype o) attr)))
+  \/ (exists en', iterate mobj noev (mkm_step spec) (map row_value spec0) en = ([], Fall en')
+                   /\ modifies_known_mutable spec0 (mtype o) attr = false).
 Proof.
-  intros spec T attr spec0. induction spec0 as [|r rest IH]; intros en Ho Ha.
+  intros spec o attr spec0. induction spec0 as [|r rest IH]; intros en Ho Ha.
   - right. exists en. split; reflexivity.
-  - cbn [map iterate modifies_known_mutable]. rewrite (mkm_step_row spec r en T attr Ho Ha).
-    destruct (mem_b T (row_inst r)) eqn:Hm.
+  - cbn [map iterate modifies_known_mutable]. rewrite (mkm_step_row spec r en o attr Ho Ha).
+    destruct (mem_b (mtype o) (row_inst r)) eqn:Hm.
     + left. reflexivity.
     + cbn [then_ app].
-      destruct (IH ((%(mkm_unsafe)s, PSet (row_attrs r)) :: (%(mkm_typespec)s, PTy (fun T0 => mem_b T0 (row_inst r))) :: en))
+      destruct (IH ((%(mkm_unsafe)s, PSet (row_attrs r)) :: (%(mkm_typespec)s, row_ty r) :: en))
         as [Hi|[en' [Hi Hf]]]; [exact Ho|exact Ha| |].
       * left. rewrite Hi. reflexivity.
       * right. exists en'. rewrite Hi. split; [reflexivity|exact Hf].
 Qed.
 
-Theorem modifies_known_mutable_source_eq_model : forall spec T attr,
-  src_mkm spec T attr = ([], Norm (PBool (modifies_known_mutable spec T attr))).
+Theorem modifies_known_mutable_source_eq_model : forall spec o attr,
+  src_mkm spec o attr = ([], Norm (PBool (modifies_known_mutable spec (mtype o) attr))).
 Proof.
-  intros spec T attr. unfold src_mkm. rewrite body_mkm_shape. unfold run.
+  intros spec o attr. unfold src_mkm. rewrite body_mkm_shape. unfold run.
   cbn [execs].
-  assert (Hfor : exec btype noev (mkm_globals spec) yes no_getattr no_getitem no_call exn_isa
-                   (SFor [%(mkm_typespec)s; %(mkm_unsafe)s] %(mkm_iter)s mkm_loop) [(%(mkm_obj)s, PObj T); (%(mkm_attr)s, PStr attr)]
-                 = iterate btype noev (mkm_step spec) (map row_value spec) [(%(mkm_obj)s, PObj T); (%(mkm_attr)s, PStr attr)]).
-  { cbn [exec eval ret of_eval].
-    transitivity (let (l2, f) := iterate btype noev (mkm_step spec) (map row_value spec) [(%(mkm_obj)s, PObj T); (%(mkm_attr)s, PStr attr)]
+  assert (Hfor : exec mobj noev (mkm_globals spec) yes no_getattr no_getitem mkm_call exn_isa
+                   (SFor [%(mkm_typespec)s; %(mkm_unsafe)s] %(mkm_iter)s mkm_loop) [(%(mkm_obj)s, PObj o); (%(mkm_attr)s, PStr attr)]
+                 = iterate mobj noev (mkm_step spec) (map row_value spec) [(%(mkm_obj)s, PObj o); (%(mkm_attr)s, PStr attr)]).
+  { cbn [exec eval ret of_eval]. unfold mkm_globals at 1. cbn [String.eqb Ascii.eqb Bool.eqb].
+    transitivity (let (l2, f) := iterate mobj noev (mkm_step spec) (map row_value spec) [(%(mkm_obj)s, PObj o); (%(mkm_attr)s, PStr attr)]
                   in (([] : list noev) ++ l2, f)); [reflexivity|].
-    destruct (iterate btype noev (mkm_step spec) (map row_value spec) [(%(mkm_obj)s, PObj T); (%(mkm_attr)s, PStr attr)]); reflexivity. }
+    destruct (iterate mobj noev (mkm_step spec) (map row_value spec) [(%(mkm_obj)s, PObj o); (%(mkm_attr)s, PStr attr)]); reflexivity. }
   rewrite Hfor.
-  destruct (mkm_iterate spec T attr spec [(%(mkm_obj)s, PObj T); (%(mkm_attr)s, PStr attr)] eq_refl eq_refl) as [Hi|[en' [Hi Hf]]];
+  destruct (mkm_iterate spec o attr spec [(%(mkm_obj)s, PObj o); (%(mkm_attr)s, PStr attr)] eq_refl eq_refl) as [Hi|[en' [Hi Hf]]];
     rewrite Hi; cbn; [reflexivity|rewrite Hf; reflexivity].
 Qed.'''
 
